@@ -406,7 +406,9 @@ class MindsDBLexer(Lexer):
         shift = 0
         error_line = 0
         error_index = 0
-        for i, line in enumerate(self.text.split('\n')):
+        # the text as it was given to parse_sql (the ending semicolon and spaces are cut from the tokenized text)
+        text = getattr(self, 'source', None) or self.text
+        for i, line in enumerate(text.split('\n')):
             if 0 <= t.index - shift < len(line):
                 error_line = i
                 error_index = t.index - shift
